@@ -278,7 +278,7 @@ func TestVerif_C06(t *testing.T) {
 		c.Rule("states = distinct input strings: every selector AST with up to k leaves (k=2 quick, k=3 thorough) over the full grammar " +
 			"(== != contains, starts with, ends with, in, not in, has(), all(), global(), !, !!, &&, ||, nesting; labels a/in/has; values x, empty, y'z, q\"r; set sizes 0-2) " +
 			"rendered in several surface styles (both quote styles, spacing none/single/tabs, notin / not in / not  in, redundant or minimal parentheses, !!x vs !(!x)), " +
-			"plus every single-token deletion/insertion/substitution of the plain rendering (near-miss inputs); " +
+			"plus every single-token deletion/insertion/substitution of the plain rendering (near-miss inputs; for k=3 of the flat three-operand groups only); " +
 			"transitions = calls into the real parser/selector (Parse, Validate, String+re-Parse, Evaluate per label map over values {absent,'',x,xy,yx,q\"r,y'z}); " +
 			"non-trivial = distinct tree shapes and distinct (rejection class, edit kind) pairs")
 		c.Assume("label names and values come from a small vocabulary (3 labels incl. keyword look-alikes, 4 values incl. both quote characters and the empty string); " +
@@ -362,8 +362,9 @@ func TestVerif_C06(t *testing.T) {
 				part := g2[i:min(i+chunk, len(g2))]
 				emit(func(w *c06Worker) {
 					for _, g := range part {
-						for _, top := range selgen.Tops(g) {
-							w.tree(top, four, true, c.Quick())
+						for ti, top := range selgen.Tops(g) {
+							// near-miss edits of the "!!(...)" form add nothing over those of "!(...)" in the quick tier
+							w.tree(top, four, ti < 2 || c.Thorough(), c.Quick())
 						}
 					}
 				})
@@ -379,7 +380,8 @@ func TestVerif_C06(t *testing.T) {
 						emit(func(w *c06Worker) {
 							selgen.Groups3For(kind, first, compact3, func(g *selgen.Node) bool {
 								for ti, top := range selgen.Tops(g) {
-									w.tree(top, four, ti == 0, false)
+									// k=3: all surface styles for every tree; near-miss edits for the flat triples
+									w.tree(top, four, ti == 0 && len(g.Kids) == 3, false)
 								}
 								return !c.Expired()
 							})
